@@ -658,9 +658,12 @@ protected:
 			if constexpr (arithmetic == Saturate) {
 				constexpr fixpnt maxpos(SpecificValue::maxpos), maxneg(SpecificValue::maxneg);
 				// check if we are in the representable range: the casts truncate toward zero, so an integer
-				// equal to the truncated maxpos is still representable
-				if (v > static_cast<Arith>(maxpos)) { return maxpos; }
-				if (v <= static_cast<Arith>(maxneg)) { return maxneg; }
+				// equal to the truncated maxpos is still representable. Compare in long long: the bounds
+				// need not fit in Arith, and with more than 64 integer bits every native integer fits.
+				if constexpr (nbits - rbits <= 64) {
+					if (static_cast<long long>(v) > static_cast<long long>(maxpos)) { return maxpos; }
+					if (static_cast<long long>(v) <= static_cast<long long>(maxneg)) { return maxneg; }
+				}
 			}
 			constexpr unsigned sizeofInteger = 8 * sizeof(v);
 			if (v == -v) {
@@ -686,7 +689,9 @@ protected:
 				constexpr fixpnt<nbits, rbits, arithmetic, bt> maxpos(SpecificValue::maxpos), maxneg(SpecificValue::maxneg);
 				// check if we are in the representable range (an unsigned value is never below maxneg);
 				// compare with the integer part of maxpos: the unsigned casts return the raw bits
-				if (v > static_cast<unsigned long long>(static_cast<long long>(maxpos))) { return maxpos; }
+				if constexpr (nbits - rbits <= 64) {
+					if (static_cast<unsigned long long>(v) > static_cast<unsigned long long>(static_cast<long long>(maxpos))) { return maxpos; }
+				}
 			}
 			constexpr uint64_t mask = 0x1;
 			unsigned upper = (nbits - rbits) <= 64 ? nbits : 64;
@@ -700,9 +705,9 @@ protected:
 			if constexpr (arithmetic == Saturate) {	// check if the value is in the representable range
 				fixpnt a;
 				a.maxpos();
-				if (v >= float(a)) { return a; } // set to max pos value
+				if (v >= static_cast<Arith>(a)) { return a; } // set to max pos value (compare in the source type: float(maxpos) may round up)
 				a.maxneg();
-				if (v <= float(a)) { return a; } // set to max neg value
+				if (v <= static_cast<Arith>(a)) { return a; } // set to max neg value
 			}
 
 			bool s{ false };
